@@ -143,6 +143,11 @@ public:
 	return false;
       }
     string dest_dir(args[1]);
+    if (dest_dir.empty())
+      {
+	cerr << "extract-all: the name of the destination directory should not be empty.\n";
+	return false;
+      }
     if (dest_dir.back() != '/')
       dest_dir.push_back('/');
 
